@@ -104,7 +104,7 @@ def teardown(ctx):
 
 
 def plan(tier):
-    m = 1 if tier == 'quick' else 12
+    m = 1 if tier == 'quick' else 96
     return [('dobs', 700 * m), ('dobs_int', 350 * m), ('pobs', 300 * m), ('pobs_int', 120 * m), ('pobs_lists', 60 * m), ('history', 120 * m), ('alias', 80 * m)]
 
 
